@@ -104,6 +104,15 @@ def chkLine (st : RibSt) (ts : List Tok) : RibSt :=
           | [ig, sv] :: w :: res =>
             match boolOf ig, boolOf sv, opResOf w, res.mapM opResOf with
             | some ig, some sv, some w, some res =>
+              -- C17 read directly on the implementation's verdict: present = some result agrees
+              -- with the want in every field the documented options leave compared
+              let present := res.any (fun r =>
+                r.prog == w.prog && r.elec == w.elec && r.params == w.params && r.clientErr == w.clientErr &&
+                (ig || r.opId == w.opId) && (!sv || r.serverErr == w.serverErr) && (w.details.isNone || r.details == w.details))
+              let st := if impl && !present
+                then st.monfail "c17" "HasResult passed although no result equals the wanted one in the fields the options leave compared (operation id unless IgnoreOperationID, server error with IncludeServerError, details when the want has them)" else st
+              let st := if !impl && pan == "" && present
+                then st.monfail "c17" "HasResult reported a fatal failure although a result equal to the wanted one (under the options given) is present" else st
               verdict st c (hasResult (res.map some) w { ignoreOpId := ig, includeServerErr := sv }) impl pan
             | _, _, _, _ => bad st
           | _ => bad st
